@@ -31,7 +31,7 @@ def base_program():
     }
 
 
-EVENTS = ["redef_f", "redef_g", "redef_h", "rebind_G", "rebind_HV", "rebind_GV", "mutate_GL", "def_k_helper", "def_k_var", "toggle_g_kind",
+EVENTS = ["redef_f", "redef_g", "redef_h", "redef_h_default", "redef_h_kwdefault", "rebind_G", "rebind_HV", "rebind_GV", "mutate_GL", "def_k_helper", "def_k_var", "toggle_g_kind",
           "rebind_cfg", "def_attr_Z", "clone_f", "wrap_f", "query_f", "query_g"]
 
 
@@ -42,6 +42,10 @@ def apply_to_ast(P, ev):
     if ev in ("redef_f", "redef_g", "redef_h"):
         f = fm[ev[-1]]
         f["lit"] = 8 if f["lit"] == 7 else 7
+    elif ev == "redef_h_default":  # same body, same position, another positional default
+        fm["h"]["pos_default"] = 11 if fm["h"]["pos_default"] == 10 else 10
+    elif ev == "redef_h_kwdefault":
+        fm["h"]["kw_default"] = 4 if fm["h"]["kw_default"] == 3 else 3
     elif ev == "rebind_G":
         Q["vars"]["G"] = 6 if Q["vars"]["G"] == 5 else 5
     elif ev in ("rebind_HV", "rebind_GV"):
